@@ -50,6 +50,8 @@ func runC01(p *Prog, r *Report) {
 	methodSetRule(p, r, "C01.R5")
 	qualMethodRule(p, r, "C01.R6")
 	callersRebuiltRule(p, r, "C01.R7")
+	vocabularyRule(p, r, "C01.R8", p.Chains())
+	outputPackageRule(p, r, "C01.R9")
 }
 
 // reservedNames reads the initial lookup set from the map literal in namer.New.
